@@ -1489,14 +1489,15 @@ _LOCALS_CACHE: dict = {}
 
 
 def _local_names(f) -> set:
-    k = id(f.node)
-    if k not in _LOCALS_CACHE:
+    # cached on the function object (ids of nodes are reused once a program has been collected)
+    d = f.__dict__
+    if "_local_names" not in d:
         out = set()
         for n in _walk_no_nested(f.node):
             if isinstance(n, ast.Name) and isinstance(n.ctx, ast.Store):
                 out.add(n.id)
-        _LOCALS_CACHE[k] = out
-    return _LOCALS_CACHE[k]
+        d["_local_names"] = out
+    return d["_local_names"]
 
 
 def _walk_no_nested(node):
